@@ -20,6 +20,18 @@ R13.4  in Pilot._update no call that runs callbacks of another registry
        specific callbacks, among which add_pilots registered _pilot_state_cb:
        an application callback that raises must not keep the task manager
        from learning that the pilot ended.
+R13.5  registration lifetime (the other half of R13.3: a path on which the
+       pilot of a bound, non-final task can end without the FAILED update
+       being reachable).  The callback add_pilots registers stays on the
+       pilot as long as tasks can be bound to it: no method of TaskManager
+       other than close (and what only close calls) takes it out of the
+       callback registry of a pilot - by a method of the pilot which removes
+       entries of the registry (decided for the arguments of the call: all
+       entries / the entry with the id() of the given callable / the entries
+       equal to it), or by handling the registry of the pilot directly -
+       unless that method or its callers handle the tasks (then: undecided,
+       ANALYSIS-ERROR).  What add_pilots itself removes before it registers
+       the callback does not count.
 """
 
 import ast
@@ -27,10 +39,10 @@ import ast
 from ..model import (walk, dotted, call_name, kwarg, unparse, short, UNKNOWN,
                      root_name, AnalysisError, calls_in, stores_in_target)
 from ..cfg import cfg_of
-from ..flow import Deps, guards, loop_slice
+from ..flow import Deps, guards, loop_slice, assigned_names, must_pass
 from .. import idioms as I
 from .c15 import StateEval, Uneval, single_assign
-from .c12 import defs_reaching
+from .c12 import defs_reaching, stores_of
 
 TMGR  = ('task_manager.py', 'TaskManager')
 PILOT = ('pilot.py', 'Pilot')
@@ -44,20 +56,44 @@ def _consts(prog):
 
 # ------------------------------------------------------------------------------
 #
-def _dict_of(f, expr):
-    """dict literal denoted by expr (the literal itself or a local name all of
-    whose assignments are dict literals)"""
+def _dict_of(f, expr, depth=0):
+    """dict literals denoted by expr: the literal itself, a local name all of
+    whose assignments are such dicts, or `dict(<such a dict>, key=value, ..)`
+    (a copy with entries added / replaced: rendered as one literal, the
+    keyword entries first since they win)"""
+    if depth > 3:
+        return None
     if isinstance(expr, ast.Dict):
         return [expr]
+    if isinstance(expr, ast.Call) and dotted(expr.func) == 'dict' and \
+            len(expr.args) <= 1 and all(k.arg for k in expr.keywords) and \
+            not any(isinstance(a, ast.Starred) for a in expr.args):
+        base = [ast.Dict(keys=[], values=[])]
+        if expr.args:
+            base = _dict_of(f, expr.args[0], depth + 1)
+            if base is None:
+                return None
+        out = []
+        for b in base:
+            if any(k is None for k in b.keys):
+                return None
+            d = ast.Dict(keys=[ast.Constant(value=k.arg)
+                               for k in expr.keywords] + list(b.keys),
+                         values=[k.value for k in expr.keywords] +
+                         list(b.values))
+            out.append(ast.copy_location(d, expr))
+        return out
     if isinstance(expr, ast.Name):
         out = []
         for n in walk(f.node):
             if isinstance(n, ast.Assign) and any(
                     isinstance(t, ast.Name) and t.id == expr.id
                     for t in n.targets):
-                if not isinstance(n.value, ast.Dict):
+                ds = _dict_of(f, n.value, depth + 1) \
+                    if not isinstance(n.value, ast.Name) else None
+                if ds is None:
                     return None
-                out.append(n.value)
+                out += ds
         return out or None
     return None
 
@@ -1138,6 +1174,765 @@ def r13_4(prog, rep, rid='R13.4'):
 
 
 # ------------------------------------------------------------------------------
+# R13.5: the registration made by add_pilots lasts as long as tasks can be
+#        bound to the pilot.  Like R13.3 this is about a path on which the
+#        pilot of a bound, non-final task can end without the FAILED update
+#        being reachable: there the update is guarded away, here the callback
+#        which carries it is taken off the pilot.
+#
+_KEY_DROP  = ('pop', 'remove', 'discard')
+_ALL_DROP  = ('clear', 'popitem')
+_APPENDERS = ('append', 'extend', 'add', 'insert', 'update', 'appendleft')
+
+
+class _Reg:
+    """the callback registry of the pilot as Pilot.register_callback fills it"""
+
+    def __init__(self, prog):
+        self.fn = prog.method(PILOT[0], PILOT[1], 'register_callback')
+        prm = [x for x in self.fn.params if x != 'self']
+        if not prm:
+            raise AnalysisError('anchor %s takes no callback' % self.fn.where)
+        self.cbparam = prm[0]
+        dr = Deps(self.fn.node, implicit=False)
+        self.attrs = {l[5:] for l in dr.edges if l.startswith('self.') and
+                      prm[0] in dr.closure(l)}
+        if not self.attrs:
+            raise AnalysisError('UNRECOGNISED-IDIOM %s: the callback %r is '
+                                'not stored in an attribute of the pilot'
+                                % (self.fn.where, prm[0]))
+        # number of subscripts below the attribute at which one callback sits
+        depth = []
+        for n in walk(self.fn.node):
+            if isinstance(n, ast.Assign) and \
+                    prm[0] in dr.expr_depends(n.value):
+                for t in n.targets:
+                    if isinstance(t, (ast.Subscript, ast.Attribute)):
+                        p = _regpath(self.fn, t, self, _is_self)
+                        if p:
+                            depth.append(p[0])
+            elif isinstance(n, ast.Call) and \
+                    isinstance(n.func, ast.Attribute) and \
+                    n.func.attr in _APPENDERS and \
+                    any(prm[0] in dr.expr_depends(a) for a in n.args):
+                p = _regpath(self.fn, n.func.value, self, _is_self)
+                if p:
+                    depth.append(p[0] + 1)
+        if len(set(depth)) != 1 or depth[0] < 1:
+            raise AnalysisError('UNRECOGNISED-IDIOM %s: cannot tell at which '
+                                'level of %s a callback is stored'
+                                % (self.fn.where, sorted(self.attrs)))
+        self.depth = depth[0]
+
+
+def _is_self(e):
+    return isinstance(e, ast.Name) and e.id == 'self'
+
+
+def _regpath(f, e, reg, isrecv, d=0):
+    """(number of subscripts below <recv>.<registry attribute>, expression of
+    the first subscript or None) when `e` denotes the registry of a pilot or
+    a table inside it - not a copy"""
+    if d > 6 or e is None:
+        return None
+    if isinstance(e, ast.Attribute) and e.attr in reg.attrs and \
+            isrecv(e.value):
+        return (0, None)
+    if isinstance(e, ast.Subscript):
+        p = _regpath(f, e.value, reg, isrecv, d + 1)
+        if p:
+            return (p[0] + 1, e.slice if p[0] == 0 else p[1])
+        return None
+    if isinstance(e, ast.Call) and isinstance(e.func, ast.Attribute) and \
+            e.func.attr in ('get', 'setdefault') and e.args:
+        p = _regpath(f, e.func.value, reg, isrecv, d + 1)
+        if p:
+            return (p[0] + 1, e.args[0] if p[0] == 0 else p[1])
+        return None
+    if isinstance(e, ast.Name):
+        v = single_assign(f, e.id)
+        if v is not None:
+            return _regpath(f, v, reg, isrecv, d + 1)
+        # element of a loop over the tables of the registry
+        heads = [n for n in walk(f.node, nested=True)
+                 if isinstance(n, (ast.For, ast.comprehension)) and
+                 e.id in stores_in_target(n.target)]
+        if len(heads) == 1 and isinstance(heads[0].iter, ast.Call) and \
+                isinstance(heads[0].iter.func, ast.Attribute) and \
+                not heads[0].iter.args:
+            it, tg = heads[0].iter.func, heads[0].target
+            elem = it.attr == 'values' and isinstance(tg, ast.Name) or \
+                it.attr == 'items' and isinstance(tg, ast.Tuple) and \
+                len(tg.elts) == 2 and isinstance(tg.elts[1], ast.Name) and \
+                tg.elts[1].id == e.id
+            if elem:
+                p = _regpath(f, it.value, reg, isrecv, d + 1)
+                if p:
+                    return (p[0] + 1, p[1])
+    return None
+
+
+def shrink_sites(prog, f, reg, isrecv):
+    """[(ast node, kind, key / value expression, metric expression)]: the
+    statements of `f` which take callbacks out of the registry of a pilot.
+    kind: 'key' one entry is deleted, 'all' a whole table is emptied or
+    deleted, 'reset' a table is replaced"""
+    out = []
+
+    def drop(node, base, key):
+        p = _regpath(f, base, reg, isrecv)
+        if not p:
+            return
+        level = p[0] + 1
+        metric = p[1] if p[0] else key
+        if level == reg.depth:
+            out.append((node, 'key', key, metric))
+        elif level < reg.depth:
+            out.append((node, 'all', None, metric))
+
+    for n in walk(f.node):
+        if isinstance(n, ast.Delete):
+            for t in n.targets:
+                if isinstance(t, ast.Subscript):
+                    drop(n, t.value, t.slice)
+                elif isinstance(t, ast.Attribute) and t.attr in reg.attrs \
+                        and isrecv(t.value):
+                    out.append((n, 'all', None, None))
+        elif isinstance(n, ast.Call) and isinstance(n.func, ast.Attribute):
+            if n.func.attr in _KEY_DROP and n.args:
+                drop(n, n.func.value, n.args[0])
+            elif n.func.attr in _ALL_DROP:
+                p = _regpath(f, n.func.value, reg, isrecv)
+                if p and p[0] < reg.depth:
+                    out.append((n, 'all', None, p[1]))
+        elif isinstance(n, (ast.Assign, ast.AnnAssign)) and \
+                n.value is not None:
+            ts = n.targets if isinstance(n, ast.Assign) else [n.target]
+            for t in ts:
+                if not isinstance(t, (ast.Attribute, ast.Subscript)):
+                    continue
+                p = _regpath(f, t, reg, isrecv)
+                if p and p[0] < reg.depth and not (
+                        f.name == '__init__' and isrecv is _is_self):
+                    out.append((n, 'reset', n.value, p[1]))
+    return out
+
+
+class _Arg:
+    """what is known of an argument: kind 'ours' (the callback add_pilots
+    registers) | 'other' | 'none' | 'unknown'; truth / is_none: True, False
+    or None (not known); fresh: a bound method made by the evaluation of the
+    expression itself (another object every time)"""
+
+    def __init__(self, kind, truth=None, is_none=None, fresh=False, expr=None):
+        self.kind, self.truth, self.is_none = kind, truth, is_none
+        self.fresh, self.expr = fresh, expr
+
+
+def _arg_of(prog, f, e, cbf, depth=0):
+    if e is None:
+        return _Arg('unknown')
+    if isinstance(e, ast.Constant):
+        if e.value is None:
+            return _Arg('none', False, True, expr=e)
+        return _Arg('other', bool(e.value), False, expr=e)
+    if _is_self(e):
+        return _Arg('other', True, False, expr=e)      # the manager itself
+    if isinstance(e, ast.Name) and depth < 3:
+        v = single_assign(f, e.id)
+        if v is not None:
+            return _arg_of(prog, f, v, cbf, depth + 1)
+        return _Arg('unknown', expr=e)
+    a = _self_attr(e)
+    if a and f.cls is not None:
+        m = prog.find_method(f.cls, a)
+        if m is None:
+            return _Arg('unknown', expr=e)
+        if m is cbf:
+            return _Arg('ours', True, False, fresh=True, expr=e)
+        return _Arg('other', True, False, expr=e)
+    if isinstance(e, ast.Lambda):
+        return _Arg('other', True, False, expr=e)
+    return _Arg('unknown', expr=e)
+
+
+def _bind(callee, call):
+    """{parameter: (expression, is default)} of a call of a bound method"""
+    a = callee.node.args
+    pos = a.posonlyargs + a.args
+    names = [x.arg for x in pos]
+    if names and names[0] == 'self':
+        names = names[1:]
+    out = {}
+    for i, v in enumerate(call.args):
+        if isinstance(v, ast.Starred):
+            return None
+        if i < len(names):
+            out[names[i]] = (v, False)
+    for k in call.keywords:
+        if k.arg is None:
+            return None
+        out[k.arg] = (k.value, False)
+    nd = len(a.defaults)
+    for prm, dv in zip(pos[len(pos) - nd:], a.defaults):
+        out.setdefault(prm.arg, (dv, True))
+    for prm, dv in zip(a.kwonlyargs, a.kw_defaults):
+        if dv is not None:
+            out.setdefault(prm.arg, (dv, True))
+    return out
+
+
+def _truth(test, args, stored):
+    """value of a test on a parameter the analysis knows the argument of"""
+
+    def known(e):
+        return isinstance(e, ast.Name) and e.id in args and \
+            e.id not in stored
+
+    if known(test):
+        return args[test.id].truth
+    if isinstance(test, ast.Compare) and len(test.ops) == 1 and \
+            isinstance(test.ops[0], (ast.Is, ast.IsNot, ast.Eq, ast.NotEq)):
+        l, r = test.left, test.comparators[0]
+        for a, b in ((l, r), (r, l)):
+            if known(a) and isinstance(b, ast.Constant) and b.value is None:
+                v = args[a.id].is_none
+                if v is None:
+                    return None
+                return v == isinstance(test.ops[0], (ast.Is, ast.Eq))
+    return None
+
+
+def selection(prog, f, g, smap, site, kind, key, reg, isrecv, skip, cbparams):
+    """which entries the statement `site` removes: ('all', None) whatever is
+    there, ('identity', p) the entry whose key is the id() of the argument
+    given for p (or which `is` it), ('equality', p) the entries equal to it,
+    ('copy', None) nothing (a reset to a copy), ('other', x) something the
+    analysis cannot name"""
+    tags = set()
+    seen = set()
+    skipset = set(skip)
+    live = g.reachable(g.entry.id, skip_edges=skip)
+    meths = f.cls.methods if f.cls is not None else {}
+    # callees `self.m(..)` are calls, not callbacks handed around
+    callee_ids = {id(n.func) for n in walk(f.node, nested=True)
+                  if isinstance(n, ast.Call) and _self_attr(n.func)}
+
+    def scan(expr, at, depth, guard=False):
+        if expr is None:
+            return
+        bound, used = set(), set()
+        for n in walk(expr, nested=True):
+            if isinstance(n, ast.comprehension):
+                bound |= set(stores_in_target(n.target))
+            elif isinstance(n, ast.Lambda):
+                bound |= {a.arg for a in n.args.args}
+        for n in walk(expr, nested=True):
+            if isinstance(n, ast.Attribute) and n.attr in reg.attrs and \
+                    isrecv(n.value):
+                tags.add('registry')
+            if isinstance(n, ast.Subscript):
+                # the subscripts which pick a table inside the registry (the
+                # metric) do not pick entries
+                p = _regpath(f, n.value, reg, isrecv)
+                if p and p[0] + 1 < reg.depth:
+                    used |= {id(x) for x in walk(n.slice, nested=True)}
+            if isinstance(n, ast.Call) and isinstance(n.func, ast.Attribute) \
+                    and n.func.attr in ('get', 'setdefault') and n.args:
+                p = _regpath(f, n.func.value, reg, isrecv)
+                if p and p[0] + 1 < reg.depth:
+                    used |= {id(x) for x in walk(n.args[0], nested=True)}
+            if isinstance(n, ast.Call) and dotted(n.func) == 'id' and \
+                    len(n.args) == 1 and isinstance(n.args[0], ast.Name) and \
+                    n.args[0].id in cbparams:
+                tags.add(('id', n.args[0].id))
+                used.add(id(n.args[0]))
+            if isinstance(n, ast.Compare) and len(n.ops) == 1:
+                l, r = n.left, n.comparators[0]
+                for a, b in ((l, r), (r, l)):
+                    if isinstance(a, ast.Name) and a.id in cbparams and \
+                            a.id not in bound:
+                        used.add(id(a))
+                        if isinstance(b, ast.Constant):
+                            continue
+                        op = n.ops[0]
+                        if isinstance(op, (ast.Is, ast.IsNot)):
+                            tags.add(('is', a.id))
+                        elif isinstance(op, (ast.Eq, ast.NotEq)):
+                            tags.add(('eq', a.id))
+                        else:
+                            tags.add(('other', a.id))
+            a = _self_attr(n)
+            if a and a in meths and id(n) not in callee_ids:
+                # a callback named directly (not through a parameter)
+                tags.add(('other', 'self.' + a))
+        for n in walk(expr, nested=True):
+            if isinstance(n, ast.Name) and isinstance(n.ctx, ast.Load) and \
+                    id(n) not in used and n.id not in bound and \
+                    n.id != 'self':
+                if n.id in cbparams:
+                    if not guard:
+                        tags.add(('other', n.id))
+                elif n.id not in f.params and depth < 6:
+                    trace(n.id, at, depth + 1)
+
+    def contribute(node, value, depth):
+        scan(value, node.id, depth)
+        for tid, lab in guards(g, node.id):
+            if tid in live:
+                scan(g.nodes[tid].ast, tid, depth, guard=True)
+
+    def trace(name, at, depth):
+        if (name, at) in seen:
+            return
+        seen.add((name, at))
+        kills = [n for n in g.nodes if n.id in live and name in stores_of(n)]
+        ids = {n.id for n in kills}
+        for dn in kills:
+            starts = [e.dst for e in g.succ[dn.id] if e.label != 'exc' and
+                      (dn.id, e.label) not in skipset]
+            r = g.reachable(starts, skip_nodes=ids - {at}, skip_edges=skip)
+            if at not in r:
+                continue
+            if dn.kind == 'for':
+                contribute(dn, dn.ast.iter, depth)
+            elif isinstance(dn.ast, ast.AugAssign):
+                contribute(dn, dn.ast.value, depth)
+                trace(name, dn.id, depth + 1)
+            else:
+                contribute(dn, dn.ast.value, depth)
+        for n in g.nodes:
+            if n.id not in live or n.kind != 'stmt' or n.ast is None:
+                continue
+            for c in calls_in(n.ast):
+                if isinstance(c.func, ast.Attribute) and \
+                        c.func.attr in _APPENDERS and \
+                        isinstance(c.func.value, ast.Name) and \
+                        c.func.value.id == name and \
+                        at in g.reachable(n.id, skip_edges=skip):
+                    for a in c.args:
+                        contribute(n, a, depth)
+
+    node = smap.get(id(site))
+    if node is None:
+        raise AnalysisError('UNRECOGNISED-IDIOM %s: `%s` is not a statement '
+                            'of the function body' % (f.where, short(site, 60)))
+    scan(key, node.id, 0)
+    for tid, lab in guards(g, node.id):
+        if tid in live:
+            scan(g.nodes[tid].ast, tid, 0, guard=True)
+    named = sorted(t for t in tags if isinstance(t, tuple))
+    for want, sel in ((('other',), 'other'), (('id', 'is'), 'identity'),
+                      (('eq',), 'equality')):
+        hit = [t for t in named if t[0] in want]
+        if hit:
+            return (sel, hit[0][1])
+    if kind == 'reset' and 'registry' in tags:
+        return ('copy', None)
+    if kind == 'key' and 'registry' not in tags:
+        return ('other', short(key, 40))
+    return ('all', None)
+
+
+def pilot_shrinkers(prog, pk, reg):
+    """methods of the pilot which take callbacks out of its registry -
+    themselves or through methods of the pilot they call"""
+    own = {}
+    for k in prog.mro(pk):
+        for fn in k.methods.values():
+            if prog.find_method(pk, fn.name) is fn:
+                own[fn.name] = fn
+    out = {fn for fn in own.values() if shrink_sites(prog, fn, reg, _is_self)}
+    grew = True
+    while grew:
+        grew = False
+        for fn in own.values():
+            if fn in out:
+                continue
+            for c in calls_in(fn.node):
+                if _self_attr(c.func) and prog.resolve_call(fn, c) in out:
+                    out.add(fn)
+                    grew = True
+                    break
+    return out
+
+
+def unreg_effects(prog, reg, shrinkers, metric, m, args, depth=0, stack=()):
+    """[(function, statement, selection, parameter, its argument)]: what the
+    method `m` of the pilot removes from the registry when it is called with
+    `args` ({parameter: _Arg}); tests on parameters whose argument is known
+    are decided"""
+    g = cfg_of(m)
+    smap = I.stmt_node_map(g)
+    stored = assigned_names(m.node)
+    skip = []
+    for n in g.nodes:
+        if n.kind == 'test':
+            v = _truth(n.ast, args, stored)
+            if v is True:
+                skip.append((n.id, 'F'))
+            elif v is False:
+                skip.append((n.id, 'T'))
+    live = g.reachable(g.entry.id, skip_edges=skip)
+    cbparams = {p for p, a in args.items()
+                if a.kind in ('ours', 'none', 'unknown') and p not in stored}
+    out = []
+    for site, kind, key, mexpr in shrink_sites(prog, m, reg, _is_self):
+        node = smap.get(id(site))
+        if node is None:
+            raise AnalysisError('UNRECOGNISED-IDIOM %s: `%s` is not a '
+                                'statement of the function body'
+                                % (m.where, short(site, 60)))
+        if node.id not in live:
+            continue
+        if mexpr is not None:
+            mv = prog.fold(m.module, mexpr, m.cls)
+            if isinstance(mv, str) and mv != metric:
+                continue
+        sel, p = selection(prog, m, g, smap, site, kind, key, reg, _is_self,
+                           skip, cbparams)
+        out.append((m, site, sel, p, args.get(p)))
+    for c in calls_in(m.node):
+        if not _self_attr(c.func) or depth >= 3:
+            continue
+        callee = prog.resolve_call(m, c)
+        if callee is None or callee is m or callee in stack or \
+                callee not in shrinkers:
+            continue
+        node = smap.get(id(c))
+        if node is None or node.id not in live:
+            continue
+        b = _bind(callee, c)
+        if b is None:
+            raise AnalysisError('UNRECOGNISED-IDIOM %s: arguments of `%s` '
+                                'cannot be bound' % (m.where, short(c, 60)))
+        a2 = {}
+        for prm, (e, isdef) in b.items():
+            if not isdef and isinstance(e, ast.Name) and e.id in args and \
+                    e.id not in stored:
+                a2[prm] = args[e.id]
+            else:
+                a2[prm] = _arg_of(prog, callee if isdef else m, e, None)
+        out += unreg_effects(prog, reg, shrinkers, metric, callee, a2,
+                             depth + 1, stack + (m,))
+    return out
+
+
+def _describe(fn, site, sel):
+    how = {'all': 'every callback of the table',
+           'identity': 'the callback which is the same object as the one '
+                       'given',
+           'equality': 'the callbacks equal to the one given',
+           'other': 'entries the analysis cannot name'}[sel]
+    return '%s: `%s` removes %s' % (fn.qual, short(site, 50), how)
+
+
+def pilot_tables(addf, pvar_of):
+    """attributes of the manager in which add_pilots keeps the pilot objects"""
+    out = set()
+    for n in walk(addf.node):
+        if isinstance(n, ast.Assign) and isinstance(n.value, ast.Name) and \
+                n.value.id in pvar_of:
+            for t in n.targets:
+                if isinstance(t, ast.Subscript) and _self_attr(t.value):
+                    out.add(t.value.attr)
+        elif isinstance(n, ast.Call) and isinstance(n.func, ast.Attribute) \
+                and n.func.attr in _GROW and _self_attr(n.func.value) and \
+                any(isinstance(a, ast.Name) and a.id in pvar_of
+                    for a in n.args):
+            out.add(n.func.value.attr)
+    return out
+
+
+def r13_5(prog, rep, task_attrs, rid='R13.5'):
+    rep.rule(rid, 'the callback add_pilots registers stays on the pilot as '
+             'long as tasks can be bound to it: no method of TaskManager '
+             'other than close takes it out of the callback registry of a '
+             'pilot (unregister_callback with it or without a callback, a '
+             'pilot method that clears the registry, the registry itself) '
+             'without taking care of the bound tasks', minimum=2)
+    tm   = prog.cls(*TMGR)
+    pk   = prog.cls(*PILOT)
+    addf = prog.method(TMGR[0], TMGR[1], 'add_pilots')
+    cbf  = prog.find_method(tm, '_pilot_state_cb')
+    closef = prog.find_method(tm, 'close')
+    if cbf is None:
+        raise AnalysisError('anchor TaskManager._pilot_state_cb not found')
+    reg = _Reg(prog)
+    metric = prog.const('constants.py', 'PILOT_STATE')
+    shrinkers = pilot_shrinkers(prog, pk, reg)
+    snames = {fn.name for fn in shrinkers}
+    rep.stat('pilot_unregistering_methods', len(shrinkers))
+    aparams = [p for p in addf.params if p != 'self']
+    pvars = {n.target.id for n in walk(addf.node)
+             if isinstance(n, ast.For) and isinstance(n.target, ast.Name) and
+             isinstance(n.iter, ast.Name) and aparams and
+             n.iter.id == aparams[0]}
+    ptables = pilot_tables(addf, pvars)
+    if not ptables:
+        raise AnalysisError('UNRECOGNISED-IDIOM %s: no table of the manager '
+                            'is found in which the added pilots are kept'
+                            % addf.where)
+    # is the registered callback another object at every evaluation?
+    regs = []
+    for c in calls_in(addf.node):
+        if isinstance(c.func, ast.Attribute) and c.func.attr == reg.fn.name:
+            b = _bind(reg.fn, c)
+            if b and reg.cbparam in b:
+                a = _arg_of(prog, addf, b[reg.cbparam][0], cbf)
+                if a.kind == 'ours':
+                    regs.append((c, a))
+    reg_fresh = all(a.fresh and _self_attr(a.expr) for c, a in regs)
+    regtext = short(regs[0][0], 60) if regs else 'register_callback'
+
+    methods = [fn for fn in tm.methods.values()]
+    callers, callees = {}, {}
+    for fn in methods:
+        for c in calls_in(fn.node, nested=True):
+            if _self_attr(c.func):
+                m = prog.resolve_call(fn, c)
+                if m is not None and m is not fn:
+                    callers.setdefault(m, set()).add(fn)
+                    callees.setdefault(fn, set()).add(m)
+
+    def exempt(m, seen=()):
+        if m is closef:
+            return True
+        cs = [c for c in callers.get(m, ()) if c not in seen]
+        return bool(cs) and all(exempt(c, seen + (m,)) for c in cs)
+
+    def up(m):
+        out, todo = set(), [m]
+        while todo:
+            x = todo.pop()
+            for c in callers.get(x, ()):
+                if c not in out:
+                    out.add(c)
+                    todo.append(c)
+        return out
+
+    def down(m, depth=2):
+        out, todo = {m}, [(m, 0)]
+        while todo:
+            x, d = todo.pop()
+            if d >= depth:
+                continue
+            for c in callees.get(x, ()):
+                if c not in out:
+                    out.add(c)
+                    todo.append((c, d + 1))
+        return out
+
+    handed = {addf: set(aparams[:1]),
+              cbf: set([p for p in cbf.params if p != 'self'][:1])}
+    memo = {}
+
+    def pilot_test(fn, depth=0):
+        """predicate: the expression of fn denotes a pilot object (or a
+        collection of them)"""
+        if fn in memo:
+            return memo[fn]
+        d = Deps(fn.node, implicit=False)
+        roots = {'self.' + t for t in ptables} | handed.get(fn, set())
+        memo[fn] = lambda e: False           # recursion guard
+        if depth < 2:
+            for g_ in callers.get(fn, ()):
+                test = pilot_test(g_, depth + 1)
+                for c in calls_in(g_.node, nested=True):
+                    if _self_attr(c.func) and prog.resolve_call(g_, c) is fn:
+                        b = _bind(fn, c) or {}
+                        for prm, (e, isdef) in b.items():
+                            if not isdef and test(e):
+                                roots.add(prm)
+
+        def test(e):
+            if isinstance(e, ast.Name) and e.id == 'self':
+                return False
+            return bool(d.expr_depends(e) & roots)
+        memo[fn] = test
+        return test
+
+    unique = {n for n in snames
+              if [k for k in prog.all_classes() if n in k.methods] == [pk]}
+
+    offending = {}          # fn -> [(node, text)]
+    looked = 0
+    for fn in methods:
+        if exempt(fn):
+            continue
+        is_pilot = pilot_test(fn)
+        hits, undecided = [], []
+        for c in calls_in(fn.node):
+            if not isinstance(c.func, ast.Attribute) or \
+                    c.func.attr not in snames:
+                continue
+            recv = c.func.value
+            if _is_self(recv) or dotted(recv).startswith('super()') or \
+                    isinstance(recv, ast.Call) and \
+                    dotted(recv.func) == 'super':
+                continue
+            callee = prog.find_method(pk, c.func.attr)
+            b = _bind(callee, c)
+            if b is None:
+                raise AnalysisError('UNRECOGNISED-IDIOM %s: arguments of `%s` '
+                                    'cannot be bound' % (fn.where, short(c, 60)))
+            args = {prm: _arg_of(prog, callee if isdef else fn, e,
+                                 None if isdef else cbf)
+                    for prm, (e, isdef) in b.items()}
+            if not (is_pilot(recv) or c.func.attr in unique or
+                    any(a.kind == 'ours' for a in args.values())):
+                continue
+            looked += 1
+            # the metric the call is about
+            mname = kwarg_name(reg.fn)
+            if mname in b:
+                e, isdef = b[mname]
+                mv = prog.fold((callee if isdef else fn).module, e,
+                               (callee if isdef else fn).cls)
+                if isinstance(mv, str) and mv and mv != metric or \
+                        isinstance(mv, (list, tuple, set)) and mv and \
+                        metric not in mv:
+                    rep.info(rid, fn, '`%s` is about the metric %r, the '
+                             'callback is registered for %r'
+                             % (short(c, 60), mv, metric), fn.loc(c))
+                    continue
+            for efn, site, sel, p, arg in unreg_effects(
+                    prog, reg, shrinkers, metric, callee, args):
+                what = _describe(efn, site, sel)
+                if sel == 'copy':
+                    continue
+                if sel == 'all':
+                    hits.append((c, what))
+                elif sel == 'other' or arg is None or arg.kind == 'unknown':
+                    undecided.append((c, what))
+                elif arg.kind != 'ours':
+                    continue                  # another callback
+                elif sel == 'equality':
+                    hits.append((c, what))
+                elif reg_fresh and arg.fresh:
+                    rep.info(rid, fn, '`%s` cannot remove the callback: %s, '
+                             'but `%s` and the registration `%s` each make a '
+                             'new bound method object' % (
+                                 short(c, 60), what, short(arg.expr, 40),
+                                 regtext), fn.loc(c))
+                else:
+                    undecided.append((c, what))
+        # the registry of a pilot handled directly
+        g = smap = None
+        for site, kind, key, mexpr in shrink_sites(prog, fn, reg, is_pilot):
+            looked += 1
+            if mexpr is not None:
+                mv = prog.fold(fn.module, mexpr, fn.cls)
+                if isinstance(mv, str) and mv != metric:
+                    continue
+            if g is None:
+                g = cfg_of(fn)
+                smap = I.stmt_node_map(g)
+            sel, p = selection(prog, fn, g, smap, site, kind, key, reg,
+                               is_pilot, [], set())
+            what = '`%s` removes %s from the registry of the pilot' % (
+                short(site, 50), 'every callback of the table'
+                if sel == 'all' else 'entries')
+            if sel == 'all':
+                hits.append((site, what))
+            elif sel != 'copy':
+                undecided.append((site, what))
+        if fn is addf and regs and hits:
+            # what add_pilots takes off a pilot before it registers the
+            # callback on it does no harm
+            g2 = cfg_of(fn)
+            sm2 = I.stmt_node_map(g2)
+            regn = {sm2[id(c)].id for c, a in regs if id(c) in sm2}
+            keep = []
+            for node, what in hits:
+                hn = sm2.get(id(node))
+                if hn is not None and regn - {hn.id} and \
+                        must_pass(g2, hn.id, g2.exit.id, regn - {hn.id}):
+                    rep.info(rid, fn, '`%s` is followed by the registration '
+                             '`%s` on every path to the normal return'
+                             % (short(node, 60), regtext), fn.loc(node))
+                else:
+                    keep.append((node, what))
+            hits = keep
+        if undecided and not hits:
+            raise AnalysisError(
+                'UNRECOGNISED-IDIOM %s: `%s` takes callbacks out of the '
+                'registry of a pilot (%s): cannot decide whether the '
+                'callback registered by add_pilots is among them'
+                % (fn.where, short(undecided[0][0], 60), undecided[0][1]))
+        if hits:
+            offending[fn] = hits
+
+    tables = ', '.join('self.' + a for a in sorted(task_attrs)) or 'the tasks'
+    for fn, hits in sorted(offending.items(), key=lambda x: x[0].qual):
+        around = {fn} | up(fn)
+        caring = [m for m in sorted(around, key=lambda x: x.qual)
+                  if failing_updates_safe(prog, m) or
+                  reads_attrs(prog, m, task_attrs)]
+        if caring:
+            raise AnalysisError(
+                'UNRECOGNISED-IDIOM %s: `%s` takes the callback registered '
+                'by add_pilots off a pilot, and %s also handles tasks: '
+                'cannot decide whether the tasks bound to that pilot are '
+                'taken care of first' % (fn.where, short(hits[0][0], 60),
+                                         caring[0].qual))
+        entries = sorted(m.name for m in around
+                         if not m.name.startswith('_')) or [fn.name]
+        for node, what in hits:
+            rep.bad(rid, fn, '%s [takes _pilot_state_cb off the pilot]'
+                    % short(node, 60),
+                    '%s: `%s` takes the callback which add_pilots registered '
+                    '(`%s`) out of the callback registry of a pilot (%s), '
+                    'but neither %s nor a method that calls it touches %s: '
+                    'the tasks bound to that pilot stay bound and keep '
+                    'running on it, and when the pilot ends %s is not '
+                    'invoked for it, so they are never reported FAILED'
+                    % (fn.qual, short(node, 60), regtext, what, fn.name,
+                       tables, cbf.qual), fn.loc(node),
+                    history='pilots p1, p2 added; task t1 is bound to p1 and '
+                    'executing; %s(p1) takes the callback off p1, t1 stays '
+                    'bound; p1 ends (DONE, FAILED or CANCELED): nothing '
+                    'fails t1, it stays non-final forever (wait_tasks '
+                    'hangs)' % entries[0])
+
+    # obligations: (a) the methods which drop a pilot from the manager
+    group_a = set()
+    for t in sorted(ptables):
+        shrink, _ = table_mutators(prog, tm, t)
+        for m in sorted(shrink, key=lambda x: x.qual):
+            if exempt(m):
+                continue
+            reach = down(m)
+            group_a |= reach
+            if not any(x in offending for x in reach):
+                rep.ok(rid, m, '%s drops pilots from self.%s (`%s`) and - '
+                       'with the %d method(s) of the manager it calls - '
+                       'leaves the callback registered on them: the tasks '
+                       'still bound to a removed pilot are failed when it '
+                       'ends' % (m.qual, t, short(shrink[m], 40),
+                                 len(reach) - 1), m.loc(shrink[m]))
+    # (b) every other method of the manager
+    rest = [m for m in methods if m not in group_a and not exempt(m)]
+    if not any(m in offending for m in rest):
+        rep.ok(rid, '%s::%s' % (tm.module.rel, tm.name),
+               'no other method of %s (%d examined, %d call(s) / '
+               'statement(s) on pilot objects looked at; %s and what only '
+               'it calls exempt) takes callbacks out of the registry of a '
+               'pilot; methods of the pilot which do: %s'
+               % (tm.name, len(rest), looked,
+                  closef.qual if closef else 'close',
+                  ', '.join(sorted(snames)) or 'none'))
+
+
+def kwarg_name(regfn):
+    """name of the metric parameter of Pilot.register_callback"""
+    for p in regfn.params:
+        if 'metric' in p:
+            return p
+    return None
+
+
+# ------------------------------------------------------------------------------
 #
 def run(prog, rep, tier):
     rep.decided = ('in TaskManager._pilot_state_cb the update that fails a '
@@ -1148,7 +1943,11 @@ def run(prog, rep, tier):
         'metric on every pilot object; no guard of the update asks whether '
         'the pilot is still an entry of a manager table which another method '
         'shrinks without caring for the bound tasks (remove_pilots / '
-        'self._pilots); in Pilot._update no unprotected call that runs '
+        'self._pilots); no method of TaskManager other than close takes '
+        'that callback off a pilot again (Pilot.unregister_callback with it '
+        'or without a callback, any pilot method that empties the registry, '
+        'the registry handled directly) without handling the tasks bound to '
+        'the pilot; in Pilot._update no unprotected call that runs '
         'callbacks of another registry (the pilot manager\'s application '
         'callbacks) can run before an invocation of the pilot specific '
         'callbacks, among which that callback is.')
@@ -1158,7 +1957,11 @@ def run(prog, rep, tier):
         'callbacks of the SAME registry - an application callback registered '
         'with pilot.register_callback before tmgr.add_pilots runs before '
         '_pilot_state_cb in Pilot._update and, if it raises, hides it (this '
-        'is how the unchanged tree behaves).')
+        'is how the unchanged tree behaves).  Not decided: callbacks taken '
+        'off a pilot by code outside TaskManager - the application calling '
+        'pilot.unregister_callback(None), which removes every callback of '
+        'the metric including the manager\'s, or the pilot emptying its own '
+        'registry during its life cycle.')
     rep.assumptions = [
         'Task.pilot is the binding published by the tmgr scheduler '
         '(Task._update copies `pilot` from the state notification)',
@@ -1169,6 +1972,14 @@ def run(prog, rep, tier):
         'flow-insensitive closure over assignments (no implicit flows)',
         'R13.3: a method that deletes / pops entries of the table and reads '
         'neither the task table nor fails tasks leaves the bound tasks bound',
+        'R13.5: a bound method expression `self.<method>` is a new object at '
+        'every evaluation, so a registry keyed by id() of the callable never '
+        'finds it again (Pilot.unregister_callback as it is raises '
+        'ValueError); `==` on bound methods of the same object and function '
+        'holds; a receiver is a pilot when it is derived from the table '
+        'add_pilots fills, from what add_pilots / the callback are handed, '
+        'or when the called method exists on Pilot only; close ends the '
+        'manager, what it unregisters is not reported',
         'R13.4: a call of a value taken out of data (loop element, subscript, '
         '.get(), parameter) is a callback of the application and may raise; '
         'try/except Exception (or broader) without re-raise isolates it; '
@@ -1183,12 +1994,14 @@ def run(prog, rep, tier):
              'being an entry of a manager table that another method shrinks '
              'without taking care of the bound tasks', minimum=1)
     f = prog.method(TMGR[0], TMGR[1], '_pilot_state_cb')
-    n = r13_1(prog, rep, f)
+    shared = {}
+    n = r13_1(prog, rep, f, out=shared)
     if n < 1:
         raise AnalysisError('R13.1: no `<task>._update({... state: rps.FAILED '
                             '...})` found in %s' % f.where)
     r13_2(prog, rep)
     r13_4(prog, rep)
+    r13_5(prog, rep, shared.get('task_attrs', set()))
     if tier == 'thorough':
         # sweep: the same rule on every other method of the package's manager
         # classes that fails tasks because of a pilot (none today)
@@ -1258,6 +2071,39 @@ _PMGR = ("            # ask pmgr to invoke any global callbacks\n"
          "            self._pmgr._call_pilot_callbacks(self)\n")
 _WITH = "        with self._cb_lock:\n            for _,cb_val in self._callbacks[rpc.PILOT_STATE].items():\n"
 
+
+# ---- R13.5: remove_pilots and the callback registry of the pilot
+_RM   = "                del self._pilots[pid]\n"
+_UNREG_OLD = ("                if cb:\n"
+              "                    to_delete = [id(cb)]\n"
+              "                else:\n"
+              "                    to_delete = list(self._callbacks[metric].keys())\n\n"
+              "                for cb_id in to_delete:\n\n"
+              "                    if cb_id not in self._callbacks[metric]:\n"
+              "                        raise ValueError(\"unknown callback '%s'\" % cb_id)\n\n"
+              "                    del self._callbacks[metric][cb_id]\n")
+# seed C13-e: unregister_callback finds bound methods (compares callables)
+_UNREG_EQ  = ("                if cb:\n"
+              "                    to_delete = [cb_id for cb_id, cb_val\n"
+              "                                       in  self._callbacks[metric].items()\n"
+              "                                       if  cb_val['cb'] == cb]\n"
+              "                    if not to_delete:\n"
+              "                        raise ValueError(\"unknown callback '%s'\" % cb)\n"
+              "                else:\n"
+              "                    to_delete = list(self._callbacks[metric].keys())\n\n"
+              "                for cb_id in to_delete:\n"
+              "                    del self._callbacks[metric][cb_id]\n")
+_ATTACH_END = "      #     self._tmgr.submit_tasks(self._raptor_waitpool)\n"
+_DETACH = ("\n\n    # --------------------------------------------------------------------------\n"
+           "    #\n"
+           "    def detach_tmgr(self, tmgr) -> None:\n\n"
+           "        if self._tmgr is not tmgr:\n"
+           "            raise RuntimeError('this pilot is not attached to %s' % tmgr.uid)\n"
+           "        self._tmgr = None\n")
+_DETACH_CLEAR_ALL = _DETACH + ("\n        # the task manager is not told about this pilot anymore\n"
+           "        with self._cb_lock:\n"
+           "            self._callbacks[rpc.PILOT_STATE].clear()\n")
+
 MUTATIONS = [
     dict(name='R13.3 seed C13-c: pilots no longer in self._pilots are skipped',
          rules=('R13.3',), edits=[
@@ -1287,6 +2133,61 @@ MUTATIONS = [
          rules=('R13.3',), edits=[
         (_TM, _PFIN, "            if pid in self._pilots:\n"
                      "                continue\n\n" + _PFIN)]),
+    dict(name='R13.5 seed C13-e: remove_pilots undoes add_pilots (callback unregistered, tmgr detached)',
+         rules=('R13.5',), edits=[
+        (_PL, _UNREG_OLD, _UNREG_EQ),
+        (_PL, _ATTACH_END, _ATTACH_END + _DETACH),
+        (_TM, _RM, "\n                pilot = self._pilots.pop(pid)\n\n"
+                   "                if not isinstance(pilot, dict):\n"
+                   "                    pilot.unregister_callback(self._pilot_state_cb)\n"
+                   "                    pilot.detach_tmgr(self)\n")]),
+    dict(name='R13.5 remove_pilots drops all state callbacks of the pilot: unregister_callback(None)',
+         rules=('R13.5',), edits=[
+        (_TM, _RM, "                if not isinstance(self._pilots[pid], dict):\n"
+                   "                    self._pilots[pid].unregister_callback(None)\n" + _RM)],
+         note='Pilot.unregister_callback as it is: no callback given = every callback of the metric'),
+    dict(name='R13.5 keyword spelling, metric named, receiver read from the table before the del',
+         rules=('R13.5',), edits=[
+        (_PL, _UNREG_OLD, _UNREG_EQ),
+        (_TM, _RM, "                known = self._pilots[pid]\n"
+                   "                if not isinstance(known, dict):\n"
+                   "                    known.unregister_callback(metric=rpc.PILOT_STATE,\n"
+                   "                                              cb=self._pilot_state_cb)\n" + _RM)]),
+    dict(name='R13.5 remove_pilots clears the state callback table of the pilot directly',
+         rules=('R13.5',), edits=[
+        (_TM, _RM, "                pilot = self._pilots.pop(pid)\n"
+                   "                if not isinstance(pilot, dict):\n"
+                   "                    with pilot._cb_lock:\n"
+                   "                        pilot._callbacks[rpc.PILOT_STATE].clear()\n")]),
+    dict(name='R13.5 new Pilot.detach_tmgr clears the state callbacks, remove_pilots calls it',
+         rules=('R13.5',), edits=[
+        (_PL, _ATTACH_END, _ATTACH_END + _DETACH_CLEAR_ALL),
+        (_TM, _RM, "                pilot = self._pilots.pop(pid)\n"
+                   "                if not isinstance(pilot, dict):\n"
+                   "                    pilot.detach_tmgr(self)\n")]),
+    dict(name='R13.5 the undoing sits in a helper method remove_pilots calls',
+         rules=('R13.5',), edits=[
+        (_PL, _UNREG_OLD, _UNREG_EQ),
+        (_TM, _RM, "                self._release_pilot(self._pilots.pop(pid))\n"),
+        (_TM, "    # --------------------------------------------------------------------------\n    #\n    def list_pilots(self):\n",
+              "    # --------------------------------------------------------------------------\n    #\n"
+              "    def _release_pilot(self, pilot):\n\n"
+              "        if isinstance(pilot, dict):\n"
+              "            return\n\n"
+              "        cb = self._pilot_state_cb\n"
+              "        pilot.unregister_callback(cb)\n\n\n"
+              "    # --------------------------------------------------------------------------\n    #\n    def list_pilots(self):\n")]),
+    dict(name='R13.5 get_pilots hands out pilots without the manager callback',
+         rules=('R13.5',), edits=[
+        (_PL, _UNREG_OLD, _UNREG_EQ),
+        (_TM, "        with self._pilots_lock:\n            return list(self._pilots.values())\n",
+              "        with self._pilots_lock:\n"
+              "            pilots = list(self._pilots.values())\n\n"
+              "        for pilot in pilots:\n"
+              "            if not isinstance(pilot, dict):\n"
+              "                pilot.unregister_callback(self._pilot_state_cb)\n\n"
+              "        return pilots\n")],
+         note='sibling site: the pilots stay in self._pilots, only the callback goes'),
     dict(name='R13.4 seed C13-d: pmgr callbacks before the pilot callbacks, outside the lock',
          rules=('R13.4',), edits=[
         (_PL, _PMGR, ""),
@@ -1389,6 +2290,16 @@ MUTATIONS = [
               "                    return task.pilot != _pid and task.state not in rps.FINAL\n\n"
               "                tasks = list()\n"
               "                for task in filter(_is_orphan, self._tasks.values()):\n\n")]),
+    dict(name='R13.1 update built as dict(reason, uid=..), binding test lost on the way',
+         rules=('R13.1',), edits=[
+        (_TM, "                tasks = list()\n" + _HEAD,
+              "                reason = {'exception'       : 'RuntimeError(\"pilot died\")',\n"
+              "                          'exception_detail': 'pilot %s is final' % pid,\n"
+              "                          'state'           : rps.FAILED}\n\n"
+              "                tasks = list()\n" + _HEAD),
+        (_TM, _BIND, ""),
+        (_TM, _UPD, "                    task._update(dict(reason, uid=task.uid))\n"
+                    "                    tasks.append(task.as_dict())\n")]),
     dict(name='R13.1 merged guard joined with `and` instead of `or`',
          rules=('R13.1',), edits=[
         (_TM, _BIND + _NFIN,
@@ -1458,6 +2369,14 @@ SILENT = [
               "                    return task.pilot == _pid and task.state not in rps.FINAL\n\n"
               "                tasks = list()\n"
               "                for task in filter(_is_orphan, self._tasks.values()):\n\n")]),
+    dict(name='corpus r7: constant part of the update built once per pilot, per-task copy dict(reason, uid=..)', edits=[
+        (_TM, "                tasks = list()\n" + _HEAD,
+              "                reason = {'exception'       : 'RuntimeError(\"pilot died\")',\n"
+              "                          'exception_detail': 'pilot %s is final' % pid,\n"
+              "                          'state'           : rps.FAILED}\n\n"
+              "                tasks = list()\n" + _HEAD),
+        (_TM, _UPD, "                    task._update(dict(reason, uid=task.uid))\n"
+                    "                    tasks.append(task.as_dict())\n")]),
     dict(name='guards as a lambda passed to filter()', edits=[
         (_TM, _HEAD + _CMT + _BIND + _NFIN,
               "                for task in filter(lambda t: t.pilot == pid and\n"
@@ -1486,6 +2405,56 @@ SILENT = [
               "                    todo = list(self._tasks.values())\n\n"
               "                tasks = list()\n"
               "                for task in todo:\n\n")]),
+    # ---- R13.5: rewrites of remove_pilots / of the registry which leave the
+    #      callback on the pilot
+    dict(name='R13.5 remove_pilots pops the entry and logs what it removed', edits=[
+        (_TM, _RM, "                gone = self._pilots.pop(pid)\n"
+                   "                self._log.debug('removed pilot %s (%s)', pid, type(gone).__name__)\n")]),
+    dict(name='R13.5 removal extracted into a helper that only forgets the pilot', edits=[
+        (_TM, "                if pid not in self._pilots:\n"
+              "                    raise ValueError('pilot %s not removed' % pid)\n" + _RM,
+              "                self._forget_pilot(pid)\n"),
+        (_TM, "    # --------------------------------------------------------------------------\n    #\n    def list_pilots(self):\n",
+              "    # --------------------------------------------------------------------------\n    #\n"
+              "    def _forget_pilot(self, pid):\n\n"
+              "        if pid not in self._pilots:\n"
+              "            raise ValueError('pilot %s not removed' % pid)\n"
+              "        del self._pilots[pid]\n\n\n"
+              "    # --------------------------------------------------------------------------\n    #\n    def list_pilots(self):\n")]),
+    dict(name='R13.5 Pilot.unregister_callback: table aliased, entries popped', edits=[
+        (_PL, _UNREG_OLD,
+              "                cbs = self._callbacks[metric]\n"
+              "                to_delete = [id(cb)] if cb else list(cbs.keys())\n\n"
+              "                for cb_id in to_delete:\n\n"
+              "                    if cb_id not in cbs:\n"
+              "                        raise ValueError(\"unknown callback '%s'\" % cb_id)\n\n"
+              "                    cbs.pop(cb_id)\n")]),
+    dict(name='R13.5 unregistration by identity never finds the bound method: nothing is removed', edits=[
+        (_TM, _RM, "                try:\n"
+                   "                    self._pilots[pid].unregister_callback(self._pilot_state_cb)\n"
+                   "                except (ValueError, AttributeError):\n"
+                   "                    pass\n" + _RM)],
+         note='Pilot.unregister_callback as it is looks up id(cb); `self._pilot_state_cb` is a new '
+              'bound method object at every evaluation, so the lookup raises ValueError and the '
+              'callback stays registered'),
+    dict(name='R13.5 remove_pilots unregisters a callback for another metric', edits=[
+        (_PL, _UNREG_OLD, _UNREG_EQ),
+        (_TM, _RM, "                if not isinstance(self._pilots[pid], dict):\n"
+                   "                    try:\n"
+                   "                        self._pilots[pid].unregister_callback(None, metric='NOT_A_PILOT_METRIC')\n"
+                   "                    except ValueError:\n"
+                   "                        pass\n" + _RM)],
+         note='the call is about another metric table (and is refused by the pilot): the state callback stays'),
+    dict(name='R13.5 close takes the callback off the pilots (the manager is gone after close)', edits=[
+        (_PL, _UNREG_OLD, _UNREG_EQ),
+        (_TM, "        self._cmgr.close()\n\n        self._log.info(\"Closed TaskManager %s.\" % self._uid)\n",
+              "        self._cmgr.close()\n\n"
+              "        with self._pilots_lock:\n"
+              "            for pilot in self._pilots.values():\n"
+              "                if not isinstance(pilot, dict):\n"
+              "                    pilot.unregister_callback(self._pilot_state_cb)\n\n"
+              "        self._log.info(\"Closed TaskManager %s.\" % self._uid)\n")],
+         note='exempt by the rule: a closed manager reports nothing anymore'),
     # ---- R13.4: rewrites of the dispatch in Pilot._update
     dict(name='R13.4 dispatch over .values() with one call site, locals renamed', edits=[
         (_PL, _CBS + _PMGR,
